@@ -7,6 +7,7 @@ import (
 	"io"
 	"os"
 	"path/filepath"
+	"regexp"
 	"runtime"
 	"sort"
 	"strings"
@@ -298,6 +299,9 @@ func compareRows(want, got []yrow) (string, string) {
 // the concretisation of the specification's @LONG@ comment: longer than bufio.MaxScanTokenSize
 var longComment = strings.Repeat("long comment ", 5400)
 
+// an anchor or tag, nothing after it, then a line comment: `b: &anc  # c`
+var reDecoratedEmpty = regexp.MustCompile(`(&[A-Za-z0-9]+|![^ \n]+)  # `)
+
 func noBlankLines(s string) string {
 	var out []string
 	for _, l := range strings.Split(s, "\n") {
@@ -416,6 +420,10 @@ func checkC05(rc *Run) error {
 						rc.Report("resolved-type:"+in.Rows[i].rtag+"->"+out.Rows[i].rtag, fmt.Sprintf("yq . on %q prints %q: node %s resolves to %s instead of %s", text, p.Stdout, in.Rows[i].key(), out.Rows[i].rtag, in.Rows[i].rtag), concrete)
 						break
 					}
+				}
+				if strings.Join(out.Comments, "\x00") != strings.Join(in.Comments, "\x00") && reDecoratedEmpty.MatchString(text) {
+					rc.Report("comments:line-comment-of-anchored-or-tagged-empty-value", short(fmt.Sprintf("yq . on %q prints %q: the line comment behind an anchor / tag that decorates an empty value is lost or moves to another node", text, p.Stdout)), concrete)
+					continue
 				}
 				if strings.Join(out.Comments, "\x00") != strings.Join(in.Comments, "\x00") {
 					rc.Report("comments:"+c.label(), short(fmt.Sprintf("yq . on %q prints %q: comments %q became %q", text, p.Stdout, in.Comments, out.Comments)), concrete)
